@@ -780,6 +780,13 @@ def t_block():
     cj = ast.unparse(find_def(cb, 'CombinedBlock._jacobian'))
     facts['combined_jacobian_accumulates'] = all(x in cj for x in ('total_Js = JacobianDict.identity(inputs)', 'for block in self.blocks', 'J = block.jacobian(ss, inputs & block.inputs, outputs & block.outputs, T, Js, options)',
                                                                    'total_Js.update(J @ total_Js)', 'return total_Js[original_outputs & total_Js.outputs, :]'))
+    # requested subsets: the names whose rows _jacobian computes are the requested outputs plus every intermediate name (an output of some block that some block reads)
+    fii = ast.unparse(find_def('utilities/graph.py', 'find_intermediate_inputs'))
+    cinit = ast.unparse(find_def(cb, 'CombinedBlock.__init__'))
+    facts['combined_jacobian_wants_requested_and_intermediate'] = (
+        all(x in cj for x in ('original_outputs = outputs', 'outputs = (outputs | self._required) - vector_valued', 'if inputs & block.inputs and outputs & block.outputs:'))
+        and 'self._required = find_intermediate_inputs(blocks) if intermediate_inputs is None else intermediate_inputs' in cinit
+        and all(x in fii for x in ('required = OrderedSet()', 'outmap = get_output_map(blocks)', 'for num, block in enumerate(blocks):', 'inputs = block.inputs', 'for i in inputs:', 'if i in outmap:', 'required.add(i)', 'return required')))
     sn = find_def('blocks/block.py', 'Block.solve_impulse_nonlinear')
     src = ast.unparse(sn)
     loops = [n for n in sn.body if isinstance(n, ast.For)]
